@@ -189,7 +189,7 @@ where
         delay: &mut DELAY,
     ) -> Result<(), SPI::Error> {
         self.update_frame(spi, buffer, delay)?;
-        self.command(spi, Command::DisplayRefresh)?;
+        self.display_frame(spi, delay)?;
         Ok(())
     }
 
